@@ -2158,7 +2158,7 @@ class Engine:
                     sv = args[star_at]
                     items = self.static_items(sv)
                     if items is None:
-                        if f.k == 'func' and isinstance(f.py, tuple) and f.py[0] == 'spec':
+                        if f.k == 'func' and isinstance(f.py, tuple) and (f.py[0] == 'spec' or self.has_policy(f)):
                             # a ghost (contract-defined) callee gets the sequence as one marked argument
                             items = [V('star', extra={'seq': sv})]
                         else:
@@ -2362,6 +2362,19 @@ class Engine:
             else:
                 raise Unsupported(node, 'break/continue escaped function')
         return res
+
+    def has_policy(self, f):
+        """a repository function the contract replaces by a ghost call (policy given as a callable)"""
+        try:
+            if f.py[0] == 'module':
+                quals = ['%s::%s' % (f.py[1], f.py[2]), f.py[2]]
+            elif f.py[0] == 'method':
+                quals = ['%s::%s.%s' % (f.py[1], f.py[2], f.py[3]), '%s.%s' % (f.py[2], f.py[3])]
+            else:
+                return False
+        except Exception:
+            return False
+        return any(callable(self.contract.policies.get(q)) for q in quals)
 
     def call_closure(self, f, args, kwargs, st, node):
         _, fdef, cenv, mod, clsname = f.py
